@@ -3,7 +3,8 @@
 seeded/<id>/meta.json and seeded/README.md.  usage: tools/seedtable.py [id ...]"""
 import json, os, re, subprocess, sys
 V = "/verif"
-ids = sys.argv[1:] or sorted(d for d in os.listdir(f"{V}/seeded") if os.path.isdir(f"{V}/seeded/{d}"))
+readme_only = "--readme-only" in sys.argv
+ids = [] if readme_only else [a for a in sys.argv[1:] if not a.startswith("--")] or sorted(d for d in os.listdir(f"{V}/seeded") if os.path.isdir(f"{V}/seeded/{d}"))
 rows = []
 for sid in ids:
     d = f"{V}/seeded/{sid}"
@@ -50,8 +51,12 @@ with open(f"{V}/seeded/README.md", "w") as f:
             "`git -C /repo checkout -- .`), `demo.py` (passes on the unchanged code, fails with the change), `NOTES.md` (the author's notes) and "
             "`meta.json`. The changes were written by sub-agents that saw only the property text and a scratch worktree. All were confirmed "
             "with `tools/seedcheck.sh` (demo passes without / fails with the change; the repository's 337 tests still pass with it).\n\n"
-            "| id | property | caught by its check (quick tier) | violation reported | note |\n|---|---|---|---|---|\n")
+            "`first pass` = what the check did when the change was first run against it, before any strengthening (recorded for the "
+            "second round, ids -c/-d; for the first round see DESIGN.md section 7).\n\n"
+            "| id | property | first pass | caught by its check now (quick tier) | violation reported | note |\n|---|---|---|---|---|---|\n")
     for m in allmeta:
-        f.write(f"| {m['id']} | {m['breaks_property']} | {'yes' if m['caught'] else 'NO'} | {m['check_result'].get('violation_kind') or ''} | {m.get('note','')} |\n")
+        fp = m.get("first_pass_caught")
+        f.write(f"| {m['id']} | {m['breaks_property']} | {'' if fp is None else ('yes' if fp else 'no')} | {'yes' if m['caught'] else 'NO'} | "
+                f"{m['check_result'].get('violation_kind') or ''} | {m.get('note','')} |\n")
     n = sum(1 for m in allmeta if m["caught"])
     f.write(f"\n{n} of {len(allmeta)} caught.\n")
